@@ -312,7 +312,11 @@ Record numres := {
 Definition slice (s : bytes) (from len : Z) : list cell :=
   map Some (firstn (Z.to_nat len) (skipn (Z.to_nat from) s)).
 
-Definition number (s : bytes) : jres numres :=
+(* the scanning part of lyjson_number(): offsets of the end of the integer part, of the fraction, of the
+   exponent letter (if any) and of the end of the number *)
+Record lexed := { l_minus : Z; l_o1 : Z; l_o2 : Z; l_exp : option Z; l_off : Z }.
+
+Definition lex_number (s : bytes) : jres lexed :=
   let fuel := S (length s) in
   let* c0 := rdin s 0 in
   let minus := if (c0 =? 45)%N then 1 else 0 in
@@ -326,17 +330,23 @@ Definition number (s : bytes) : jres numres :=
                    if is_digit d then skip_digits fuel s (o1 + 1) else JErr E_CHAR)
              else JOk o1 in
   let* c := rdin s o2 in
-  let* (exponent, off) :=
-     if (c =? 101)%N || (c =? 69)%N then
-       let* c1 := rdin s (o2 + 1) in
-       let o := if (c1 =? 43)%N || (c1 =? 45)%N then o2 + 2 else o2 + 1 in
-       let* d := rdin s o in
-       if is_digit d then (let* o' := skip_digits fuel s o in JOk (Some o2, o')) else JErr E_CHAR
-     else JOk (None, o2) in
-  let* z := number_is_zero s 0 (match exponent with Some e => e | None => off end) in
+  if (c =? 101)%N || (c =? 69)%N then
+    let* c1 := rdin s (o2 + 1) in
+    let o := if (c1 =? 43)%N || (c1 =? 45)%N then o2 + 2 else o2 + 1 in
+    let* d := rdin s o in
+    if is_digit d then (let* o' := skip_digits fuel s o in
+                        JOk {| l_minus := minus; l_o1 := o1; l_o2 := o2; l_exp := Some o2; l_off := o' |})
+    else JErr E_CHAR
+  else JOk {| l_minus := minus; l_o1 := o1; l_o2 := o2; l_exp := None; l_off := o2 |}.
+
+(* the part of lyjson_number() after the scan: which text becomes jsonctx->value *)
+Definition number_post (s : bytes) (lx : lexed) : jres numres :=
+  let minus := l_minus lx in
+  let off := l_off lx in
+  let* z := number_is_zero s 0 (match l_exp lx with Some e => e | None => off end) in
   if z then JOk {| n_value := slice s 0 (minus + 1); n_consumed := off; n_dynamic := false; n_exp := None |}
   else
-    match exponent with
+    match l_exp lx with
     | Some ex =>
         let* ze := number_is_zero s (ex + 1) off in
         if ze then JOk {| n_value := slice s 0 ex; n_consumed := off; n_dynamic := false; n_exp := None |}
@@ -348,6 +358,9 @@ Definition number (s : bytes) : jres numres :=
         if LY_NUMBER_MAXLEN <? off then JErr E_MAXLEN
         else JOk {| n_value := slice s 0 off; n_consumed := off; n_dynamic := false; n_exp := None |}
     end.
+
+Definition number (s : bytes) : jres numres :=
+  let* lx := lex_number s in number_post s lx.
 
 (* entry point used by the correspondence: the text is cut at its first NUL as the C string is *)
 Definition number_c (s : bytes) : jres numres := number (cstr s).
